@@ -250,8 +250,11 @@ SpansOk(t, offs, s, m, parent) ==
             /\ \A x \in 1..Len(m.v) :
                  /\ HasEntry(s.v, m.v[x].key)
                  /\ LET se == s.v[EntryFor(s.v, m.v[x].key)]
-                        \* syntactic children: entries of an inline table; body key/values of a header table
-                        inside == IF s.sp # NoSpan \/ se.val.sp # NoSpan THEN m.sp ELSE <<>>
+                        \* the nearest enclosing span: a table created by dotted keys has none of its own
+                        encl == IF m.sp # <<>> THEN m.sp ELSE parent
+                        \* syntactic children: entries of an inline table; body key/values of a header table,
+                        \* also through the tables that dotted keys create; sub-tables with their own header are not
+                        inside == IF s.sp # NoSpan \/ se.val.sp # NoSpan \/ (se.val.k = "t" /\ se.val.def = "dotted") THEN encl ELSE <<>>
                     IN /\ SpanWellFormed(m.v[x].ksp, offs)
                        /\ Within(m.v[x].ksp, IF s.sp # NoSpan THEN m.sp ELSE <<>>)
                        /\ m.v[x].ksp # <<>> =>
@@ -281,7 +284,18 @@ NoSpans(m) ==
 
 KindOfTy(ty) == CASE ty = "i64" -> {"i"} [] ty = "f64" -> {"f", "i"} [] ty = "bool" -> {"b"} [] ty = "string" -> {"s"}
                   [] ty = "datetime" -> {"dt", "t"}  \* Datetime is decoded from a map: a table is rejected for its content, not its kind [] ty \in {"array", "array_spanned"} -> {"a"}
-                  [] ty \in {"table", "table_spanned"} -> {"t"} [] OTHER -> {"s", "i", "f", "b", "dt", "a", "t"}
+                  [] ty \in {"table", "table_spanned"} -> {"t"} [] ty = "enum" -> {"s", "t"}   \* an externally tagged enum is also read from a one-key table
+                  [] ty \in {"enum_array", "enum_tuple_array"} -> {"a"} [] OTHER -> {"s", "i", "f", "b", "dt", "a", "t"}
+\* enum targets with the unit variants "a" and "b": the span of the first element that names no variant (<<>> if none)
+IsVariant(v) == v.k = "s" /\ v.v \in {<<97>>, <<98>>}
+FirstBad(vs, pick(_)) == LET bad == {x \in 1..Len(vs) : ~IsVariant(pick(vs[x])) /\ pick(vs[x]).k = "s"} IN
+                         IF bad = {} THEN NoSpan ELSE pick(vs[CHOOSE x \in bad : \A y \in bad : x <= y]).sp
+BadVariantSpan(ty, kv) ==
+  CASE ty = "enum" /\ kv.k = "s" /\ ~IsVariant(kv) -> kv.sp
+    [] ty = "enum_array" /\ kv.k = "a" /\ (\A x \in 1..Len(kv.v) : kv.v[x].k = "s") -> FirstBad(kv.v, LAMBDA e : e)
+    [] ty = "enum_tuple_array" /\ kv.k = "a" /\ (\A x \in 1..Len(kv.v) : kv.v[x].k = "a" /\ Len(kv.v[x].v) = 2 /\ kv.v[x].v[1].k = "s" /\ kv.v[x].v[2].k = "i")
+         -> FirstBad(kv.v, LAMBDA e : e.v[1])
+    [] OTHER -> NoSpan
 
 CheckSpan(i) ==
   LET e == Ev[i]
@@ -309,6 +323,10 @@ CheckSpan(i) ==
                           /\ (hasK /\ kv.sp # NoSpan) => y.spanned.sp = ByteSpan(kv.sp, offs)
                           /\ (hasK /\ y.ty \in {"array_spanned", "table_spanned"}) => SpansOkInner(t, offs, kv, y.spanned.inner)
                        THEN TRUE ELSE Report(i, "span-spanned-range", [ty |-> y.ty, sp |-> y.spanned.sp]) /\ FALSE
+               \* C15: an unknown enum variant is located at the string that names it
+               /\ (hasK /\ BadVariantSpan(y.ty, kv) # NoSpan) =>
+                    IF y.plain.res = "err" /\ y.plain.err.msg_nonempty /\ y.plain.err.span = ByteSpan(BadVariantSpan(y.ty, kv), offs)
+                    THEN TRUE ELSE Report(i, "err-type-location", [ty |-> y.ty, err |-> y.plain.err, expected |-> ByteSpan(BadVariantSpan(y.ty, kv), offs)]) /\ FALSE
                \* C15: a type mismatch is located at the offending value
                /\ (y.plain.res = "err" /\ hasK /\ kv.k \notin KindOfTy(y.ty)) =>
                     IF /\ y.plain.err.msg_nonempty
